@@ -42,6 +42,7 @@ KEYS = {
     "kb": [True, False, True, True, False, False],
     "kt": [3, 1, 3, 2, 1, 3],  # days
     "ku": [4, 0, 5, 2, 1, 3],  # unique ints (a permutation)
+    "kz": ["b", "a", "d", "b", "c", "a"],  # strings without nulls
 }
 INDEX = [5, 2, 9, 2, 7, 1]
 
@@ -58,6 +59,7 @@ def frame(seed):
             "kb": np.array(KEYS["kb"]),
             "kt": pd.Timestamp("2020-01-01") + pd.to_timedelta(KEYS["kt"], unit="D"),
             "ku": np.array(KEYS["ku"], dtype="int64"),
+            "kz": pd.Series(KEYS["kz"], dtype=object).values,
             "v": (np.arange(N) + 100)[perm],
         },
         index=pd.Index(INDEX, name="i"),
@@ -88,7 +90,12 @@ SORT_BY = {
 SORT_NOUT = {"quick": (None, 2), "thorough": (None, 1, 2, 4)}
 SORT_METHODS = {"quick": ("tasks", "disk"), "thorough": ("tasks", "disk", "tasks-mb2")}
 
-SETIDX_COL = {"quick": ("ki", "ks", "ku"), "thorough": ("ki", "kf", "ks", "kn", "kt", "ku", "kc")}
+# set_index columns.  Not in the alphabet, a priori: "ks" (strings with None) -- dask states in its own error message that
+# nulls in a non-numeric index column are unsupported ("Divisions calculation failed ... presence of nulls, which Dask does
+# not entirely support in the index"); "kc" (UNORDERED categorical) -- it has no order: pandas' sort_index falls back to the
+# category positions while dask refuses (min of an unordered categorical) or orders by label.  Numeric columns with nulls
+# (kf, kn) stay in: dask says "for numeric types there shouldn't be problems with nulls".
+SETIDX_COL = {"quick": ("ki", "kz", "ku", "kf"), "thorough": ("ki", "kf", "kz", "kn", "kt", "ku")}
 SETIDX_MODES = {"quick": ("plain", "plain-n2", "nosort", "sorted", "divs"), "thorough": ("plain", "plain-n2", "plain-n4", "nosort", "sorted", "divs", "keepcol")}
 SETIDX_METHODS = {"quick": ("tasks", "disk"), "thorough": ("tasks", "disk", "tasks-mb2")}
 
@@ -208,14 +215,41 @@ def _partitions(d):
     return list(dask.compute(*d.to_delayed()))
 
 
+def _plain(ix):
+    """RangeIndex and Index[int64] with the same labels are the same index"""
+    return pd.Index(np.asarray(ix), name=ix.name) if isinstance(ix, pd.RangeIndex) else ix
+
+
 def _seq_equal(got, want):
     """exact sequence equality of two Series/Index (values incl. NA positions, dtype, name)"""
     if isinstance(want, pd.Index):
-        return dfh.equal(pd.Index(got), want, ordered=True)
+        return dfh.equal(_plain(pd.Index(got)), _plain(want), ordered=True)
     return dfh.equal(got.reset_index(drop=True), want.reset_index(drop=True), ordered=True)
 
 
+def _rows_equal(got, want, ordered=False, check_index=True):
+    """labelled-row comparison; the index is renamed first (set_index(drop=False) leaves a column with the index' name,
+    which pandas cannot reset_index) and RangeIndex is materialised"""
+    if isinstance(want, (pd.DataFrame, pd.Series)) and isinstance(got, type(want)):
+        if check_index and got.index.name != want.index.name:
+            return f"index name {got.index.name!r} != {want.index.name!r}"
+        got, want = got.copy(), want.copy()
+        got.index = _plain(got.index).rename("__index__")
+        want.index = _plain(want.index).rename("__index__")
+    return dfh.equal(got, want, ordered=ordered, check_index=check_index)
+
+
 def known_class(case, failure):
+    """narrow input classes of recorded findings (C40.findings.json); appended to the finding key"""
+    kind = case[0]
+    if kind == "dedup" and failure == "wrong-representative" and case[2] == "disk":
+        return "disk-shuffle"
+    if kind == "setidx":
+        col, mode = case[1], case[3]
+        if col in ("kf", "kn") and failure in ("not-sorted-like-pandas", "dask-raises:TypeError"):
+            return "null-in-index"
+        if col == "kz" and mode.startswith("plain-n") and failure == "dask-raises:AssertionError":
+            return "npartitions-on-string-column"
     return None
 
 
@@ -231,184 +265,232 @@ def _refusal(e):
 
 
 # ------------------------------------------------------------------------------------------------ evaluation
-def run_case(case, ctx):
+def plan(case, pdf):
+    """-> (f_pd, f_dd, check, scenario).  f_pd: the pandas reference (may raise -> inapplicable); f_dd: ONLY dask calls
+    (build, operation, compute) so that an exception from it is dask's; check(got, want) -> [(failure, detail)], outcome."""
     kind = case[0]
-    parts = case[-1]
-    pdf = frame(ctx.seed)
-    nontrivial = len(parts) >= 2
-    problems = []  # (failure class, detail)
-    want = None
-    scen = case[1] if kind != "nunique-frame" else "frame"
-    try:
-        if kind == "shuffle":
-            _, on, m, nout, ign, parts = case
-            method, opts = METHODS[m]
+    if kind == "shuffle":
+        _, on, m, nout, ign, parts = case
+        method, opts = METHODS[m]
+
+        def f_dd():
             d = dfh.build(pdf, parts)
             if on == "@index":
-                kw, kcols, use_index = {"on_index": True}, [], True
+                kw = {"on_index": True}
             elif on == "@series":
-                kw, kcols, use_index = {"on": d["ki"] % 2}, None, False
+                kw = {"on": d["ki"] % 2}
             else:
-                kw, kcols, use_index = {"on": _cols(on) if "+" in on else on}, _cols(on), False
+                kw = {"on": _cols(on) if "+" in on else on}
             s = d.shuffle(npartitions=nout, shuffle_method=method, ignore_index=ign, **kw, **opts)
-            ps = _partitions(s)
-            got = pd.concat(ps) if ps else pdf.iloc[:0]
+            return s.npartitions, _partitions(s)
+
+        def check(got, want):
+            problems = []
+            declared, ps = got
+            allrows = pd.concat(ps) if ps else pdf.iloc[:0]
             exp_n = nout or len(parts)
-            if len(ps) != exp_n or s.npartitions != exp_n:
-                problems.append(("wrong-npartitions", f"{len(ps)} partitions computed, {s.npartitions} declared, {exp_n} requested"))
+            if len(ps) != exp_n or declared != exp_n:
+                problems.append(("wrong-npartitions", f"{len(ps)} partitions computed, {declared} declared, {exp_n} requested"))
+            # key of an output row = key of the INPUT row with the same (distinct) v: robust against ignore_index
+            if on == "@series":
+                allkeys = [(k,) for k in (pdf["ki"] % 2)]
+            else:
+                allkeys = _keyrepr(pdf, [] if on == "@index" else _cols(on), on == "@index")
+            key_of = dict(zip(pdf["v"].tolist(), allkeys))
             seen = {}
             for pi, p in enumerate(ps):
-                keys = [(k,) for k in (p["ki"] % 2)] if kcols is None else _keyrepr(p, kcols, use_index)
-                for k in set(keys):
+                for k in {key_of.get(x, ("?", x)) for x in p["v"].tolist()}:
                     if k in seen and seen[k] != pi:
                         problems.append(("key-split", f"key {k} occurs in output partitions {seen[k]} and {pi}"))
                     seen[k] = pi
-            why = dfh.equal(got, pdf, ordered=False, check_index=not ign)
+            why = _rows_equal(allrows, pdf, check_index=not ign)
             if why:
                 problems.append(("rows-changed", why))
-            outcome = (kind, on, len(ps), tuple(len(p) for p in ps))
-        elif kind == "sort":
-            _, by, m, asc, nap, nout, parts = case
-            method, opts = METHODS[m]
-            bys = _cols(by)
-            asc_arg = list(asc) if isinstance(asc, tuple) else asc
-            want = pdf.sort_values(bys, ascending=asc_arg, na_position=nap, kind="stable")
+            return problems, (kind, on, len(ps), tuple(len(p) for p in ps))
+
+        return (lambda: pdf), f_dd, check, on
+
+    if kind == "sort":
+        _, by, m, asc, nap, nout, parts = case
+        method, opts = METHODS[m]
+        bys = _cols(by)
+        asc_arg = list(asc) if isinstance(asc, tuple) else asc
+
+        def f_pd():
+            return pdf.sort_values(bys, ascending=asc_arg, na_position=nap, kind="stable")
+
+        def f_dd():
             d = dfh.build(pdf, parts)
-            s = d.sort_values(bys if len(bys) > 1 else by, ascending=asc_arg, na_position=nap, npartitions=nout, shuffle_method=method, **opts)
-            got = s.compute()
+            return d.sort_values(bys if len(bys) > 1 else by, ascending=asc_arg, na_position=nap, npartitions=nout, shuffle_method=method, **opts).compute()
+
+        def check(got, want):
+            problems = []
             for c in bys:
                 why = _seq_equal(got[c], want[c])
                 if why:
                     problems.append(("not-sorted-like-pandas", f"column {c}: {why}"))
                     break
-            why = dfh.equal(got, want, ordered=False)
+            why = _rows_equal(got, want)
             if why:
                 problems.append(("rows-changed", why))
-            outcome = (kind, by, asc, nap, got.shape)
-        elif kind == "setidx":
-            _, col, m, mode, drop, parts = case
-            method, opts = METHODS[m]
-            src = pdf
-            kw = {}
-            if mode == "sorted":
-                src = pdf.sort_values(col, kind="stable")  # sorted=True promises a presorted column
-                kw = {"sorted": True}
-            elif mode == "nosort":
-                kw = {"sort": False}
-            elif mode.startswith("plain-n"):
-                kw = {"npartitions": int(mode[7:]), "shuffle_method": method, **opts}
-            elif mode == "divs":
-                vals = sorted(set(v for v in src[col].tolist() if not pd.isna(v)))
-                kw = {"divisions": [vals[0], vals[len(vals) // 2], vals[-1]], "shuffle_method": method, **opts}
-            elif mode == "keepcol":
-                kw = {"shuffle_method": method, **opts}
-            else:
-                kw = {"shuffle_method": method, **opts}
+            return problems, (kind, by, asc, nap, got.shape)
+
+        return f_pd, f_dd, check, by
+
+    if kind == "setidx":
+        _, col, m, mode, drop, parts = case
+        method, opts = METHODS[m]
+        # sorted=True promises a presorted column
+        src = pdf.sort_values(col, kind="stable") if mode == "sorted" else pdf
+        if mode == "sorted":
+            kw = {"sorted": True}
+        elif mode == "nosort":
+            kw = {"sort": False}
+        elif mode.startswith("plain-n"):
+            kw = {"npartitions": int(mode[7:]), "shuffle_method": method, **opts}
+        elif mode == "divs":
+            vals = sorted(set(v for v in src[col].tolist() if not pd.isna(v)))
+            kw = {"divisions": [vals[0], vals[len(vals) // 2], vals[-1]], "shuffle_method": method, **opts}
+        else:  # plain, keepcol
+            kw = {"shuffle_method": method, **opts}
+
+        def f_pd():
             want = src.set_index(col, drop=drop)
             if mode != "nosort":
                 want = want.sort_index(kind="stable")
-            d = dfh.build(src, parts)
-            s = d.set_index(col, drop=drop, **kw)
+            return want[["v"]] if mode == "keepcol" else want
+
+        def f_dd():
+            s = dfh.build(src, parts).set_index(col, drop=drop, **kw)
             if mode == "keepcol":
                 s = s[["v"]]
-                want = want[["v"]]
-            got = s.compute()
+            return s.compute()
+
+        def check(got, want):
+            problems = []
             if mode == "nosort":
-                why = dfh.equal(got, want, ordered=True)
+                why = _rows_equal(got, want, ordered=True)
                 if why:
                     problems.append(("rows-changed", why))
             else:
                 why = _seq_equal(got.index, want.index)
                 if why:
                     problems.append(("not-sorted-like-pandas", why))
-                why = dfh.equal(got, want, ordered=False)
+                why = _rows_equal(got, want)
                 if why:
                     problems.append(("rows-changed", why))
-            outcome = (kind, col, mode, drop, got.shape)
-        elif kind == "dedup":
-            _, sub, m, keep, so, ign, parts = case
-            method, opts = METHODS[m]
-            if sub.startswith("@series-"):
-                c = sub[len("@series-"):]
-                src = pdf[c]
-                want = src.drop_duplicates(keep=keep, ignore_index=ign)
-                d = dfh.build_series(src, parts)
-                s = d.drop_duplicates(keep=keep, split_out=so, shuffle_method=method, ignore_index=ign)
-            elif sub == "@all":
-                src = pdf[["ki", "ks"]]
-                want = src.drop_duplicates(keep=keep, ignore_index=ign)
-                d = dfh.build(src, parts)
-                s = d.drop_duplicates(keep=keep, split_out=so, shuffle_method=method, ignore_index=ign)
-            else:
-                cols = _cols(sub)
-                src = pdf[sorted(set(cols) | {"v"}, key=list(pdf.columns).index)]
-                want = src.drop_duplicates(subset=cols, keep=keep, ignore_index=ign)
-                d = dfh.build(src, parts)
-                s = d.drop_duplicates(subset=cols, keep=keep, split_out=so, shuffle_method=method, ignore_index=ign)
-            got = s.compute()
-            why = dfh.equal(got, want, ordered=False, check_index=not ign)
-            if why:
-                problems.append(("rows-differ", why))
-            outcome = (kind, sub, keep, got.shape)
-        elif kind == "unique":
-            _, col, m, so, parts = case
-            method, _o = METHODS[m]
-            want = pd.Series(pdf[col].unique(), name=col)
-            d = dfh.build(pdf, parts)
-            got = d[col].unique(split_out=so, shuffle_method=method).compute()
-            why = dfh.equal(got, want, ordered=False, check_index=False)
-            if why:
-                problems.append(("values-differ", why))
-            outcome = (kind, col, len(got))
-        elif kind == "nunique":
-            _, col, dropna, so, parts = case
-            want = pdf[col].nunique(dropna=dropna)
-            d = dfh.build(pdf, parts)
-            got = d[col].nunique(dropna=dropna, split_out=so).compute()
-            if int(got) != int(want):
-                problems.append(("wrong-count", f"{got!r} != {want!r}"))
-            outcome = (kind, col, dropna, int(got))
-        elif kind == "nunique-frame":
-            _, dropna, parts = case
-            want = pdf.nunique(dropna=dropna)
-            d = dfh.build(pdf, parts)
-            got = d.nunique(dropna=dropna).compute()
-            why = dfh.equal(got, want, ordered=False)
-            if why:
-                problems.append(("wrong-count", why))
-            outcome = (kind, dropna)
+            return problems, (kind, col, mode, drop, got.shape)
+
+        return f_pd, f_dd, check, col
+
+    if kind == "dedup":
+        _, sub, m, keep, so, ign, parts = case
+        method, opts = METHODS[m]
+        if sub.startswith("@series-"):
+            cols, src, kw = None, pdf[sub[len("@series-"):]], {}
+        elif sub == "@all":
+            cols, src, kw = ["ki", "ks"], pdf[["ki", "ks"]], {}
         else:
-            raise ValueError(kind)
+            cols = _cols(sub)
+            src, kw = pdf[[c for c in pdf.columns if c in cols or c == "v"]], {"subset": cols}
+
+        def f_pd():
+            return src.drop_duplicates(keep=keep, ignore_index=ign, **kw)
+
+        def f_dd():
+            d = dfh.build(src, parts) if isinstance(src, pd.DataFrame) else dfh.build_series(src, parts)
+            return d.drop_duplicates(keep=keep, split_out=so, shuffle_method=method, ignore_index=ign, **kw).compute()
+
+        def check(got, want):
+            problems = []
+            why = _rows_equal(got, want, check_index=not ign)
+            if why:
+                # which keys survive vs which of the duplicates represents a key
+                same_keys = False
+                if isinstance(got, type(want)):
+                    gk = got[cols] if cols else got
+                    wk = want[cols] if cols else want
+                    same_keys = dfh.equal(gk.reset_index(drop=True), wk.reset_index(drop=True), ordered=False, check_index=False) is None
+                problems.append(("wrong-representative" if same_keys else "wrong-keys", why))
+            return problems, (kind, sub, keep, got.shape)
+
+        return f_pd, f_dd, check, sub
+
+    if kind == "unique":
+        _, col, m, so, parts = case
+        method, _o = METHODS[m]
+
+        def check(got, want):
+            why = dfh.equal(got, want, ordered=False, check_index=False)
+            return ([("values-differ", why)] if why else []), (kind, col, len(got))
+
+        return (
+            lambda: pd.Series(pdf[col].unique(), name=col),
+            lambda: dfh.build(pdf, parts)[col].unique(split_out=so, shuffle_method=method).compute(),
+            check,
+            col,
+        )
+
+    if kind == "nunique":
+        _, col, dropna, so, parts = case
+
+        def check(got, want):
+            ok = int(got) == int(want)
+            return ([] if ok else [("wrong-count", f"{got!r} != {want!r}")]), (kind, col, dropna, int(got))
+
+        return (
+            lambda: pdf[col].nunique(dropna=dropna),
+            lambda: dfh.build(pdf, parts)[col].nunique(dropna=dropna, split_out=so).compute(),
+            check,
+            col,
+        )
+
+    if kind == "nunique-frame":
+        _, dropna, parts = case
+
+        def check(got, want):
+            why = dfh.equal(got, want, ordered=False)
+            return ([("wrong-count", why)] if why else []), (kind, dropna)
+
+        return (lambda: pdf.nunique(dropna=dropna)), (lambda: dfh.build(pdf, parts).nunique(dropna=dropna).compute()), check, "frame"
+
+    raise ValueError(kind)
+
+
+def run_case(case, ctx):
+    kind = case[0]
+    parts = case[-1]
+    pdf = frame(ctx.seed)
+    nontrivial = len(parts) >= 2
+    f_pd, f_dd, check, scen = plan(case, pdf)
+    try:
+        want, p_exc = f_pd(), None
+    except Exception as e:  # noqa: BLE001
+        want, p_exc = None, e
+    try:
+        got, d_exc = f_dd(), None
     except Hang:
         raise
     except Exception as e:  # noqa: BLE001
-        ctx.case(case, nontrivial=nontrivial, outcome=(kind, scen, type(e).__name__))
-        r = _refusal(e)
+        got, d_exc = None, e
+    if p_exc is not None:
+        # the reference itself refuses the call: dask may do anything (G4)
+        ctx.case(case, nontrivial=nontrivial, outcome=(kind, scen, "pandas-raises"))
+        ctx.count("both_raise" if d_exc is not None else "inapplicable")
+        return
+    if d_exc is not None:
+        ctx.case(case, nontrivial=nontrivial, outcome=(kind, scen, type(d_exc).__name__))
+        r = _refusal(d_exc)
         if r:
             ctx.count(r)
             return
-        if want is None and kind in ("sort", "setidx", "dedup", "unique", "nunique", "nunique-frame") and _pandas_refuses(case, pdf):
-            ctx.count("inapplicable")
-            return
-        _report(ctx, case, kind, scen, f"dask-raises:{type(e).__name__}", f"dask raised {e!r}")
+        _report(ctx, case, kind, scen, f"dask-raises:{type(d_exc).__name__}", f"dask raised {d_exc!r}")
         return
+    problems, outcome = check(got, want)  # harness code: an exception here surfaces as uncaught:*, never as dask's
     ctx.case(case, nontrivial=nontrivial, outcome=outcome)
     for failure, detail in problems[:1]:
-        extra = "" if want is None else f"\n got:\n{got!r}\n want:\n{want!r}"
+        extra = "" if kind == "shuffle" else f"\n got:\n{got!r}\n want:\n{want!r}"
         _report(ctx, case, kind, scen, failure, f"{detail}{extra}")
-
-
-def _pandas_refuses(case, pdf):
-    """True iff the pandas reference call itself raises for this case (then dask may do anything)"""
-    kind = case[0]
-    try:
-        if kind == "sort":
-            pdf.sort_values(_cols(case[1]), ascending=list(case[3]) if isinstance(case[3], tuple) else case[3], na_position=case[4])
-        elif kind == "setidx":
-            pdf.set_index(case[1], drop=case[4]).sort_index()
-        return False
-    except Exception:  # noqa: BLE001
-        return True
 
 
 def _with_tmpdir(fn):
